@@ -74,7 +74,9 @@ impl WorkerState {
     pub(crate) fn remaining_time(&self) -> Option<Duration> {
         if let Some(limit) = self.configuration.time_limit {
             let life_time = Instant::now() - self.start_time;
-            Some(limit - life_time)
+            // The worker may outlive its time limit for a moment (the stop timer in
+            // `run_worker` fires slightly later and the shutdown is not instantaneous)
+            Some(limit.saturating_sub(life_time))
         } else {
             None
         }
